@@ -36,7 +36,11 @@ pub fn total<F: Family>(b: &[u8], ctx: &mut Ctx) -> CaseResult {
     if b.len() <= 2048 {
         // one byte per read, Pending before every read, future dropped at every Pending
         let steps: Vec<Step> = (0..b.len().min(600) * 2).map(|i| if i % 2 == 0 { Step::Pending } else { Step::Chunk(1) }).collect();
-        let p2 = fam::dec_poll_scripted::<F>(b, &steps, u64::MAX, None, false);
+        // the transport's fill style and whether the decode continues from a clone of the state vary with the input
+        let p2 = fam::dec_poll_styled::<F>(b, &steps, u64::MAX, None, false, (fnv(b) & 3) as u8);
+        // two body reads with a Pending in between, continued from a cloned state
+        let steps: Vec<Step> = (0..8).map(|i| if i == 5 { Step::Pending } else if i < 4 { Step::Chunk(1) } else { Step::Chunk(b.len() / 2) }).collect();
+        let _ = fam::dec_poll_styled::<F>(b, &steps, u64::MAX, None, false, 2 | (fnv(b) >> 2 & 1) as u8);
         // (schedule independence is C05's business; here only the outcome kind is recorded)
         ctx.label(if p2.result.is_ok() == p1.result.is_ok() { "chunked:same-kind" } else { "chunked:different-kind" });
     }
